@@ -219,6 +219,7 @@ func rootecho(ctx *restli.RequestContext, rp *rootrp) *rootent {
 	rootyield(1)
 	ctx.ResponseHeaders.Set("X-Echo", id)
 	ctx.ResponseHeaders.Set("X-Echo-Path", ctx.RequestPath())
+	ctx.ResponseHeaders.Set("X-Echo-Query", ctx.Request.URL.RawQuery) // after DecodeTunnelledQuery
 	return &rootent{Key: strings.Join(rp.keys, ","), Ctx: id, Method: mv, Query: ctx.Request.URL.RawQuery}
 }
 
@@ -250,6 +251,7 @@ func rootbuild() *srvInst {
 		if v.Key == "shared" {
 			return sh.created, nil
 		}
+		ctx.ResponseHeaders.Set("X-Updated", v.Key)
 		return &restlidata.CreatedEntity[string]{Id: "new-" + v.Key + "-" + e.Ctx}, nil
 	})
 	restli.RegisterDelete(srv, items, func(ctx RC, rp *rootrp, _ *rootqp) error { rootecho(ctx, rp); return nil })
@@ -258,8 +260,9 @@ func rootbuild() *srvInst {
 		ctx.ResponseHeaders.Set("X-Updated", v.Key)
 		return nil
 	})
-	restli.RegisterPartialUpdate(srv, items, none, func(ctx RC, rp *rootrp, _ *rootent, _ *rootqp) error {
+	restli.RegisterPartialUpdate(srv, items, none, func(ctx RC, rp *rootrp, v *rootent, _ *rootqp) error {
 		rootecho(ctx, rp)
+		ctx.ResponseHeaders.Set("X-Updated", v.Key)
 		ctx.ResponseStatus = http.StatusAccepted // a status chosen by this request only
 		return nil
 	})
@@ -358,7 +361,7 @@ func rootbuild() *srvInst {
 		tunnel: func(verb, query string, body []byte) ([]byte, http.Header) {
 			return restli.EncodeTunnelledQuery(verb, query, body)
 		},
-		client: func(rt http.RoundTripper, resolver interface{}, threshold int) func(op, id string) string {
+		client: func(rt http.RoundTripper, resolver interface{}, threshold int) *clientFns {
 			var hr restli.HostnameResolver
 			if r, ok := resolver.(restli.HostnameResolver); ok {
 				hr = r
@@ -367,7 +370,11 @@ func rootbuild() *srvInst {
 				hr = &restli.SimpleHostnameResolver{Hostname: u}
 			}
 			c := &restli.Client{Client: &http.Client{Transport: rt}, HostnameResolver: hr, QueryTunnellingThreshold: threshold}
-			return func(op, id string) string { return rootcall(c, op, id) }
+			return &clientFns{
+				call:  func(op, id string) string { return rootcall(c, op, id) },
+				build: func(op, id string) (*http.Request, error) { return rootbuildReq(c, op, id) },
+				send:  func(req *http.Request) string { return rootsend(c, req) },
+			}
 		},
 	}
 }
@@ -406,6 +413,18 @@ func rootcall(c *restli.Client, op, id string) string {
 			out = fmt.Sprintf("id=%s status=%d location=%s ", ce.Id, ce.Status, rootptr(ce.Location))
 		}
 		out += rooterrString(err)
+	case "update-long": // tunnelled (query longer than the threshold) WITH a body: multipart/mixed
+		out = rooterrString(restli.Update(c, ctx, rp("/items/"+id), &rootent{Key: id}, rootlongQuery(id), nil))
+	case "partial-update-long":
+		out = rooterrString(restli.PartialUpdate(c, ctx, rp("/items/"+id), &rootent{Key: id}, rootlongQuery(id), nil))
+	case "create-long":
+		ce, err := restli.Create[string](c, ctx, rp("/items"), &rootent{Key: id}, rootlongQuery(id), nil)
+		if ce != nil {
+			out = fmt.Sprintf("id=%s status=%d location=%s ", ce.Id, ce.Status, rootptr(ce.Location))
+		}
+		out += rooterrString(err)
+	case "update":
+		out = rooterrString(restli.Update(c, ctx, rp("/items/"+id), &rootent{Key: id}, restli.QueryParamsString("x="+id), nil))
 	case "delete":
 		out = rooterrString(restli.Delete(c, ctx, rp("/items/"+id), nil))
 	case "find", "find-long":
@@ -454,10 +473,51 @@ func rootcall(c *restli.Client, op, id string) string {
 		panic("unknown client op " + op)
 	}
 	hs := []string{}
-	for _, k := range []string{"X-Echo", "X-Post-Req", "X-Post-Method", "X-Echo-Path"} {
+	for _, k := range rootechoHeaders {
 		hs = append(hs, k+"="+strings.Join(captured[k], ","))
 	}
 	return out + " | " + strings.Join(hs, " ")
+}
+
+var rootechoHeaders = []string{"X-Echo", "X-Post-Req", "X-Post-Method", "X-Echo-Path", "X-Echo-Query", "X-Updated"}
+
+func rootlongQuery(id string) restli.QueryParamsString {
+	return restli.QueryParamsString("x=" + id + "&pad=" + strings.Repeat("p", 300))
+}
+
+// a request built with the exported New*Request functions, to be sent LATER (other requests are built in between)
+func rootbuildReq(c *restli.Client, op, id string) (*http.Request, error) {
+	ctx := restli.ExtraRequestHeaders(context.Background(), func() (http.Header, error) {
+		return http.Header{"X-Req": []string{id}}, nil
+	})
+	rp := func(s string) restli.ResourcePathString { return restli.ResourcePathString(s) }
+	switch op {
+	case "b-update-long":
+		return restli.NewJsonRequest(c, ctx, rp("/items/"+id), rootlongQuery(id), http.MethodPut, restli.Method_update, &rootent{Key: id}, nil)
+	case "b-partial-update-long":
+		return restli.NewJsonRequest(c, ctx, rp("/items/"+id), rootlongQuery(id), http.MethodPost, restli.Method_partial_update, &rootent{Key: id}, nil)
+	case "b-create-long":
+		return restli.NewCreateRequest(c, ctx, rp("/items"), rootlongQuery(id), restli.Method_create, &rootent{Key: id}, rootreadOnly)
+	case "b-update":
+		return restli.NewJsonRequest(c, ctx, rp("/items/"+id), restli.QueryParamsString("x="+id), http.MethodPut, restli.Method_update, &rootent{Key: id}, nil)
+	case "b-get-long":
+		return restli.NewGetRequest(c, ctx, rp("/items/"+id), rootlongQuery(id), restli.Method_get)
+	case "b-delete":
+		return restli.NewDeleteRequest(c, ctx, rp("/items/"+id), nil, restli.Method_delete)
+	}
+	panic("unknown build op " + op)
+}
+
+func rootsend(c *restli.Client, req *http.Request) string {
+	res, err := restli.DoAndIgnore(c, req)
+	if err != nil {
+		return rooterrString(err)
+	}
+	hs := []string{fmt.Sprint(res.StatusCode)}
+	for _, k := range rootechoHeaders {
+		hs = append(hs, k+"="+strings.Join(res.Header[k], ","))
+	}
+	return strings.Join(hs, " ")
 }
 
 var modRoot = srvModule{name: "root", build: rootbuild}
